@@ -113,8 +113,23 @@ impl Epoch {
         // The (modified) Julian date counts days from a fixed calendar date, but the duration of an
         // epoch counts from the reference epoch of its time scale, which is not in 1900 for all of them.
         Self {
-            duration: (days - MJD_J1900) * Unit::Day - time_scale.gregorian_epoch_offset(),
+            duration: Self::days_to_duration(days)
+                - MJD_J1900 * Unit::Day
+                - time_scale.gregorian_epoch_offset(),
             time_scale,
+        }
+    }
+
+    /// Converts a floating point number of days to a duration without losing precision: the whole days are
+    /// converted as an integer and only the fraction of a day goes through floating point arithmetic.
+    /// Subtracting a calendar constant from the days in f64 first rounds the input to the resolution of that
+    /// constant (40 us for a Julian date), which is much coarser than the input itself for dates far from it.
+    fn days_to_duration(days: f64) -> Duration {
+        let whole_days = days.trunc();
+        if whole_days.abs() < i64::MAX as f64 {
+            (whole_days as i64) * Unit::Day + (days - whole_days) * Unit::Day
+        } else {
+            days * Unit::Day
         }
     }
 
@@ -150,7 +165,8 @@ impl Epoch {
             "Attempted to initialize Epoch with non finite number"
         );
         Self {
-            duration: (days - MJD_J1900 - MJD_OFFSET) * Unit::Day
+            duration: Self::days_to_duration(days)
+                - (MJD_J1900 + MJD_OFFSET) * Unit::Day
                 - time_scale.gregorian_epoch_offset(),
             time_scale,
         }
